@@ -338,6 +338,20 @@ func c14(ctx *Ctx) {
 			ctx.Run.Violation("definition-names-not-compiling", fmt.Sprintf("%s: emitted code does not compile: %s", sc.ID, firstLine(msg)),
 				map[string]any{"kind": "gen", "files": sc.Case().Files, "args": sc.Case().Args, "cfg": sc.Case().Cfg})
 		}})
+	// two colliding definition names, the second one (renamed with a suffix) resolved as an allOf member before / after the first is declared
+	for _, order := range []int{0, 1} {
+		up, low := J{"type": "object", "properties": J{"sku": J{"type": "string"}}, "required": A{"sku"}}, J{"type": "object", "properties": J{"code": J{"type": "integer"}}, "required": A{"code"}}
+		plainRef, member := "Item", "item"
+		if order == 1 {
+			plainRef, member = "item", "Item"
+			up, low = low, up
+		}
+		defCases = append(defCases, SCase{ID: fmt.Sprintf("C14/same-type-name/renamed-definition-as-allOf-member/%d", order), Cfg: baseCfg(), Axes: map[string]string{"pos": "same-type-name", "leaf": "renamed-allOf-member"},
+			Schema: J{"type": "object", "properties": J{"a": J{"$ref": "#/$defs/A"}, "b": J{"$ref": "#/$defs/B"}},
+				"$defs": J{"A": J{"type": "object", "properties": J{"i": J{"$ref": "#/$defs/" + plainRef}}},
+					"B":    J{"type": "object", "properties": J{"content": J{"allOf": A{J{"$ref": "#/$defs/" + member}, J{"type": "object", "properties": J{"n": J{"type": "integer"}}}}}}},
+					"Item": up, "item": low}}})
+	}
 	runBehaviour(ctx, behaviour{Name: "defnames", Cases: defCases, Values: true, Devs: []string{"LEN_BYTES", "ANYOF_MERGED_FIELD_TYPES"},
 		OnBuildErr: func(sc *SCase, msg string) {
 			if sc.Axes["leaf"] == "plain-then-anyof" && reSuffixedMember.MatchString(msg) && ctx.Run.Listed("ANYOF_SUFFIXED_NAME_MEMBERS_UNDEFINED") {
